@@ -375,8 +375,9 @@ def build_cases(tier):
     add(N=3, R=2, P=3, mask=(False, True, True), sampler_map=(1, 0, 1), symflags="none", K=2)
     add(N=2, R=2, P=2, symflags="all", boundary="mirror_both", lower=-0.05, upper=0.05, x=(0.0, 0.03), magnitude=0.1)
     # stddev chain rule
-    add(N=2, R=2, P=2, estimators=("stddev",), symflags="none", design="axes")
-    add(N=1, R=2, P=2, K=2, estimators=("mean", "stddev"), obj_est=(0, 1), symflags="unperturbed")
+    # (concrete weights: with symbolic weights the sqrt axioms make even path feasibility a hard NRA problem)
+    add(N=2, R=2, P=2, estimators=("stddev",), symflags="none", design="axes", weights=(Fraction(1, 4), Fraction(3, 4)))
+    add(N=1, R=2, P=2, K=2, estimators=("mean", "stddev"), obj_est=(0, 1), symflags="unperturbed", weights=(Fraction(2, 3), Fraction(1, 3)))
     # merged estimation (concrete weights: the weighted stacked matrix must be concrete for the SVD)
     add(N=2, R=2, P=3, merge=True, shared=True, weights=(Fraction(1, 4), Fraction(3, 4)), symflags="unperturbed")
     add(N=2, R=3, P=2, merge=True, shared=True, weights=(Fraction(1, 2), Fraction(1, 4), Fraction(1, 4)), symflags="none")
@@ -388,7 +389,7 @@ def build_cases(tier):
             add(N=2, R=2, P=3, merge=True, shared=True, weights=(Fraction(1, 3), Fraction(2, 3)), symflags="all", seed=seed + s)
         add(N=3, R=3, P=3, symflags="r0", pmin=3)
         add(N=3, R=3, P=4, K=2, C=1, symflags="perturbations", pmin=2, rmin=2)
-        add(N=2, R=3, P=3, estimators=("stddev",), symflags="unperturbed")
+        add(N=2, R=3, P=3, estimators=("stddev",), symflags="unperturbed", weights=(Fraction(1, 2), Fraction(1, 4), Fraction(1, 4)))
         add(N=2, R=4, P=3, symflags="unperturbed")
         add(N=3, R=2, P=4, merge=True, identical=True, weights=(Fraction(1, 5), Fraction(4, 5)), symflags="all")
     return cases
